@@ -391,7 +391,7 @@ def shard(ctx, n):
 
 def run(ctx):
     if ctx.quick:
-        ctx.parallel(shard, 16, 100)
+        ctx.parallel(shard, 16, 250)
         ctx.parallel(container_shard, 4, 150)
     else:
         ctx.parallel(shard, 16, 5000)
